@@ -287,6 +287,41 @@ def run_extra(rec, seed):
                     continue
                 for oi, r in enumerate(rs):
                     judge("labels-two-outputs", dict(case, output=oi), r, kc)
+    # (c) a custom grid ufunc without any halo whose signature keeps one core axis on its position: the inputs' own labels on
+    # that dimension (mutually different, and a dimension the grid dataset has no coordinate for) neither stop the call nor
+    # reach the result
+    try:
+        with warnings.catch_warnings():
+            warnings.simplefilter("ignore")
+            ds2 = xr.Dataset({"dummy": (("yc",), [0.0, 0.0])}, coords={"xc": ("xc", np.arange(m) + 0.5), "xg": ("xg", np.arange(m) * 1.0), "yl": ("yl", [0.0, 1.0])})  # (the dimension yc exists but carries no coordinate)
+            g2 = Grid(ds2, coords={"X": {"center": "xc", "left": "xg"}, "Y": {"center": "yc", "left": "yl"}}, periodic=True, autoparse_metadata=False)
+    except Exception:
+        g2 = None
+    if g2 is not None:
+        va = ((np.arange(2 * m) * 3 + seed) % 7).astype(float).reshape(2, m)
+        vb = ((np.arange(2 * m) * 5 + 1) % 11).astype(float).reshape(2, m)
+        sig2 = "(X:center,Y:center),(X:center,Y:center)->(X:left,Y:center)"
+        for la, lb in ((None, None), ([0.0, 1.0], [0.0, 1.0]), ([0.0, 1.0], [5.0, 6.0]), ([3.0, 4.0], None)):
+            for kc in (False, True):
+                case = dict(extra="kept-core-dim", labels=[la, lb], kc=kc)
+                rec.case(("extra-kept-core-dim", str(la), str(lb), kc), True, sample=case)
+                a_ = xr.DataArray(va, dims=["yc", "xc"], coords=None if la is None else {"yc": ("yc", la)})
+                b_ = xr.DataArray(vb, dims=["yc", "xc"], coords=None if lb is None else {"yc": ("yc", lb)})
+                try:
+                    with warnings.catch_warnings():
+                        warnings.simplefilter("ignore")
+                        r = apply_as_grid_ufunc(lambda p, q: p + q, a_, b_, axis=[("X", "Y"), ("X", "Y")], grid=g2, signature=sig2, keep_coords=kc)
+                        r = r[0] if isinstance(r, (tuple, list)) else r
+                except Exception as e:
+                    rec.violation("labels-kept-core-dim", "raise:" + exc_sig(e), case, "array", f"{type(e).__name__}: {e}"[:200])
+                    continue
+                want = (va + vb)
+                got = r.transpose("yc", "xg").values if set(r.dims) == {"yc", "xg"} else None
+                if got is None or not np.array_equal(got, want):
+                    rec.violation("labels-kept-core-dim", "values-depend-on-input-labels", case, want, list(r.dims) if got is None else got)
+                    continue
+                if "yc" in r.coords or "xc" in r.coords:
+                    rec.violation("labels-kept-core-dim", "input-labels-reach-the-result", case, sorted(c for c in ds2.coords if c in ("xg",)), sorted(map(str, r.coords)))
 
 
 def pools(tier):
